@@ -339,12 +339,15 @@ class PendingWhile(_PendingLoop[While]):
         else:
             while_loop_orelse = self.nsp_global.expr_wraper(self.converted_orelse)
 
+        # the loop variable is never read, but "_" may be a name of the script
+        unused_name = ol_name(OL_UNUSED)
+
         # the main body of the oneliner while loop
         while_loop_body = ListComp(
             elt=self.nsp_global.expr_wraper(self.converted_body),
             generators=[
                 comprehension(
-                    target=Name(id="_", ctx=Store()),
+                    target=Name(id=unused_name, ctx=Store()),
                     iter=Call(
                         func=Attribute(
                             value=Name(id="itertools", ctx=Load()),
@@ -355,7 +358,7 @@ class PendingWhile(_PendingLoop[While]):
                             Lambda(
                                 args=arguments(
                                     posonlyargs=[],
-                                    args=[arg(arg="_")],
+                                    args=[arg(arg=unused_name)],
                                     kwonlyargs=[],
                                     kw_defaults=[],
                                     defaults=[],
@@ -1186,20 +1189,26 @@ class PendingClassDef(_PendingCompoundStmt[ClassDef]):
             )
         )
 
+        # "k" and "v" may be names of the script (e.g. the name of this class)
+        key_name = ol_name(OL_CLASS_MEMBER_KEY)
+        value_name = ol_name(OL_CLASS_MEMBER_VALUE)
         load_class = ListComp(
             elt=Call(
                 func=Name(id="setattr", ctx=Load()),
                 args=[
                     self.nsp.get_load_name(self.node.name),
-                    Name(id="k", ctx=Load()),
-                    Name(id="v", ctx=Load()),
+                    Name(id=key_name, ctx=Load()),
+                    Name(id=value_name, ctx=Load()),
                 ],
                 keywords=[],
             ),
             generators=[
                 comprehension(
                     target=Tuple(
-                        elts=[Name(id="k", ctx=Store()), Name(id="v", ctx=Store())],
+                        elts=[
+                            Name(id=key_name, ctx=Store()),
+                            Name(id=value_name, ctx=Store()),
+                        ],
                         ctx=Store(),
                     ),
                     iter=Call(
